@@ -37,7 +37,8 @@ def general_violations(decls):
     for d in devices:
         f = dict(d[2])
         if "services" in f:
-            for s in f["services"]:
+            listed = f["services"] if isinstance(f["services"], list) else [f["services"]]
+            for s in listed:
                 name = s[1] if isinstance(s, tuple) else s
                 if name not in snames:
                     out.append("device-unknown-service")
